@@ -14,6 +14,10 @@ let comp_pmap : Registry.comp = fun _ ->
       | Some es ->
          List.fold_left (fun acc e -> acc ^ " " ^ zs e.e_first ^ ":" ^ zs e.e_count ^ ":" ^ zs e.e_delta ^ ":" ^ zs e.e_pidDelta) hd es
     end else
+    match toks with
+    | ["shift"; dk; dp] ->
+       let (ok, m') = TestSupport.pm_shift !st (z dk) (z dp) in st := m'; bs ok
+    | _ ->
     let op = match toks with
       | ["map"; s; p] -> OMap (z s, z p)
       | ["drop"; s; p] -> ODrop (z s, z p)
